@@ -12,7 +12,10 @@ CONSTANTS En,          \* enabled call families (set of strings)
           SOps, VOps,  \* scalar / vector binary operators
           Senses,      \* comparison senses
           AllNames,    \* every declared variable name (for derivative predictions)
-          Want         \* which predictions to attach: subset of {"D", "H", "nf"}
+          Want,        \* which predictions to attach: subset of {"D", "H", "V", "deg"}
+          Stages,      \* if non-empty: Stages[n] = call families allowed for the n-th call
+          FinalEn,     \* if non-empty: call families allowed as the last call of a program
+          PRPredict(_) \* prediction for an assembled problem (module Analysis); <<>> when unused
 
 VARIABLES heap, calls, pred
 vars == <<heap, calls, pred>>
@@ -34,8 +37,16 @@ VLists(vs) ==
     IF Cardinality(vs) > 3 THEN {}
     ELSE LET foreign == IF AllNames \ vs = {} THEN {} ELSE {CHOOSE n \in AllNames \ vs : TRUE} IN
          SetToSeqs(vs) \cup (IF Cardinality(vs) <= 2 /\ foreign # {} THEN SetToSeqs(vs \cup foreign) ELSE {})
+\* exact total degree of the denotation: >= 0 polynomial of that degree; -1 not a polynomial by normal form
+\* (transcendental atom, fractional / negative / variable power, division by zero function);
+\* -2 guarded arithmetic overflowed; -3 rational function with a non-constant denominator (left to the numeric test)
+SpecDeg(t) ==
+    LET n == QNF(t) IN
+    IF ~n.ok THEN (IF n.why = "toobig" THEN -2 ELSE -1)
+    ELSE IF QIsPoly(n.q) THEN PDeg(QToPoly(n.q)) ELSE -3
 ScalarPred(t) ==
     [den  |-> t,
+     deg  |-> IF "deg" \in Want THEN SpecDeg(t) ELSE -9,
      vars |-> TVars(t),
      Vs   |-> IF "V" \in Want THEN VLists(TVars(t)) ELSE {},
      D    |-> IF "D" \in Want THEN [v \in AllNames |-> DS(t, v)] ELSE <<>>,
@@ -49,10 +60,16 @@ ScipyCon(cn) ==
      jac |-> [v \in AllNames |-> DS(f, v)], vars |-> TVars(cn.den)]
 Predict(o) ==
     IF o.kind = "S" THEN ScalarPred(o.den)
+    ELSE IF o.kind = "PR" THEN PRPredict(o)
     ELSE IF o.kind = "C" THEN <<ScipyCon([den |-> o.den, sense |-> o.sense])>>
     ELSE IF o.kind = "CL" THEN [i \in 1..Len(o.cons) |-> ScipyCon(o.cons[i])]
     ELSE <<>>
 
+\* a call family is enabled; with FinalEn non-empty the last call of a program must come from FinalEn
+\* with Stages non-empty the n-th call of a program must come from Stages[n]
+On(f) == /\ f \in En
+         /\ (FinalEn = {} \/ NCalls < MaxCalls - 1 \/ f \in FinalEn)
+         /\ (Stages = <<>> \/ (NCalls + 1 <= Len(Stages) /\ f \in Stages[NCalls + 1]))
 Do(c) == /\ calls' = Append(calls, c)
          /\ heap'  = Append(heap, Apply(c, FH))
          /\ pred'  = Append(pred, Predict(heap'[Len(heap')]))     \* aligned with heap
@@ -62,62 +79,69 @@ C2(c, a, b, op)        == Call(c, a, b, op, NoLit, 0, 0, 0, "")
 CL(c, a, op, lit)      == Call(c, a, 0, op, lit, 0, 0, 0, "")
 CI(c, a, i, j, k)      == Call(c, a, 0, "", NoLit, i, j, k, "")
 
-GenSBin    == "SBin" \in En /\ \E op \in SOps, a \in Handles, b \in Handles :
+GenSBin    == On("SBin") /\ \E op \in SOps, a \in Handles, b \in Handles :
                  K(a, {"S"}) /\ K(b, {"S"}) /\ (Recent(a) \/ Recent(b)) /\ Do(C2("SBin", a, b, op))
-GenSBinLit == "SBinLit" \in En /\ \E op \in SOps, a \in Handles, l \in ScalarLits, sw \in BOOLEAN :
+GenSBinLit == On("SBinLit") /\ \E op \in SOps, a \in Handles, l \in ScalarLits, sw \in BOOLEAN :
                  K(a, {"S"}) /\ Recent(a) /\ Do(CL(IF sw THEN "SRBinLit" ELSE "SBinLit", a, op, l))
-GenSNeg    == "SNeg" \in En /\ \E a \in Handles : K(a, {"S"}) /\ Recent(a) /\ Do(C2("SNeg", a, 0, ""))
-GenFn      == "Fn" \in En /\ \E f \in Fns, a \in Handles : K(a, {"S"}) /\ Recent(a) /\ Do(C2("Fn", a, 0, f))
-GenVFn     == "VFn" \in En /\ \E f \in Fns, a \in Handles : K(a, {"V", "E", "MVP"}) /\ Recent(a) /\ Do(C2("Fn", a, 0, f))
-GenIndex   == "Index" \in En /\ \E a \in Handles, i \in Indices :
+GenSNeg    == On("SNeg") /\ \E a \in Handles : K(a, {"S"}) /\ Recent(a) /\ Do(C2("SNeg", a, 0, ""))
+GenFn      == On("Fn") /\ \E f \in Fns, a \in Handles : K(a, {"S"}) /\ Recent(a) /\ Do(C2("Fn", a, 0, f))
+GenVFn     == On("VFn") /\ \E f \in Fns, a \in Handles : K(a, {"V", "E", "MVP"}) /\ Recent(a) /\ Do(C2("Fn", a, 0, f))
+GenIndex   == On("Index") /\ \E a \in Handles, i \in Indices :
                  K(a, {"V", "E", "MVP", "EP", "EU"}) /\ Recent(a) /\ Do(CI("Index", a, i, 0, 0))
-GenSlice   == "Slice" \in En /\ \E a \in Handles, sl \in Slices :
+GenSlice   == On("Slice") /\ \E a \in Handles, sl \in Slices :
                  K(a, {"V"}) /\ Recent(a) /\ Do(CI("Slice", a, sl[1], sl[2], sl[3]))
-GenVBin    == "VBin" \in En /\ \E op \in VOps, a \in Handles, b \in Handles :
+GenVBin    == On("VBin") /\ \E op \in VOps, a \in Handles, b \in Handles :
                  K(a, {"V", "E", "MVP", "EP"}) /\ K(b, {"V", "E", "MVP", "EP"}) /\ (Recent(a) \/ Recent(b)) /\ Do(C2("VBin", a, b, op))
-GenVBinLit == "VBinLit" \in En /\ \E op \in VOps, a \in Handles, l \in ScalarLits \cup ArrayLits, sw \in BOOLEAN :
+GenVBinLit == On("VBinLit") /\ \E op \in VOps, a \in Handles, l \in ScalarLits \cup ArrayLits, sw \in BOOLEAN :
                  K(a, {"V", "E", "MVP"}) /\ Recent(a) /\ Do(CL(IF sw THEN "VRBinLit" ELSE "VBinLit", a, op, l))
-GenVNeg    == "VNeg" \in En /\ \E a \in Handles : K(a, {"V", "E", "MVP"}) /\ Recent(a) /\ Do(C2("VNeg", a, 0, ""))
-GenSum     == "Sum" \in En /\ \E a \in Handles, k \in {0, 1} :
+GenVNeg    == On("VNeg") /\ \E a \in Handles : K(a, {"V", "E", "MVP"}) /\ Recent(a) /\ Do(C2("VNeg", a, 0, ""))
+GenSum     == On("Sum") /\ \E a \in Handles, k \in {0, 1} :
                  K(a, {"V", "E", "MVP", "EP", "EU", "M", "ME"}) /\ Recent(a) /\ (k = 1 => K(a, {"V", "E"}))
                  /\ Do(CI("Sum", a, 0, 0, k))
-GenDot     == "Dot" \in En /\ \E a \in Handles, b \in Handles, k \in {0, 1} :
+GenDot     == On("Dot") /\ \E a \in Handles, b \in Handles, k \in {0, 1} :
                  K(a, {"V", "E", "MVP"}) /\ K(b, {"V", "E", "MVP"}) /\ (Recent(a) \/ Recent(b))
                  /\ Do(Call("Dot", a, b, "", NoLit, 0, 0, k, ""))
-GenLinComb == "LinComb" \in En /\ \E a \in Handles, l \in ArrayLits, k \in {0, 1} :
+GenLinComb == On("LinComb") /\ \E a \in Handles, l \in ArrayLits, k \in {0, 1} :
                  K(a, {"V", "E", "MVP"}) /\ Recent(a) /\ Do(Call("LinComb", a, 0, "", l, 0, 0, k, ""))
-GenNorm    == "Norm" \in En /\ \E a \in Handles, o \in {1, 2}, k \in {0, 1} :
+GenNorm    == On("Norm") /\ \E a \in Handles, o \in {1, 2}, k \in {0, 1} :
                  K(a, {"V", "E", "MVP"}) /\ Recent(a) /\ (k = 0 => K(a, {"V"})) /\ Do(CI("Norm", a, o, 0, k))
-GenCmp     == "Cmp" \in En /\ \E s \in Senses, a \in Handles, b \in Handles :
+GenCmp     == On("Cmp") /\ \E s \in Senses, a \in Handles, b \in Handles :
                  K(a, {"S", "V", "E", "MVP"}) /\ K(b, {"S", "V", "E", "MVP"}) /\ (Recent(a) \/ Recent(b)) /\ Do(C2("Cmp", a, b, s))
-GenCmpLit  == "CmpLit" \in En /\ \E s \in Senses, a \in Handles, l \in ScalarLits \cup ArrayLits, sw \in BOOLEAN :
+GenCmpLit  == On("CmpLit") /\ \E s \in Senses, a \in Handles, l \in ScalarLits \cup ArrayLits, sw \in BOOLEAN :
                  K(a, {"S", "V", "E", "MVP"}) /\ Recent(a) /\ (sw => s # "==")
                  /\ Do(CL(IF sw THEN "RCmpLit" ELSE "CmpLit", a, s, l))
 
 MSl == 1..Len(SliceTab)
-GenMGet    == "MGet" \in En /\ \E a \in Handles, k \in 0..3, i \in Indices \cup MSl, j \in Indices \cup MSl :
+GenMGet    == On("MGet") /\ \E a \in Handles, k \in 0..3, i \in Indices \cup MSl, j \in Indices \cup MSl :
                  /\ K(a, {"M"}) /\ Recent(a)
                  /\ (k \in {0, 1} => i \in Indices) /\ (k \in {2, 3} => i \in MSl)
                  /\ (k \in {0, 2} => j \in Indices) /\ (k \in {1, 3} => j \in MSl)
                  /\ Do(CI("MGet", a, i, j, k))
-GenTranspose == "Transpose" \in En /\ \E a \in Handles : K(a, {"M", "ME", "V"}) /\ Recent(a) /\ Do(C2("Transpose", a, 0, ""))
-GenDiagonal == "Diagonal" \in En /\ \E a \in Handles, k \in {0, 1} : K(a, {"M"}) /\ Recent(a) /\ Do(CI("Diagonal", a, 0, 0, k))
-GenTrace   == "Trace" \in En /\ \E a \in Handles, k \in {0, 1} : K(a, {"M"}) /\ Recent(a) /\ Do(CI("Trace", a, 0, 0, k))
-GenFrob    == "Frobenius" \in En /\ \E a \in Handles : K(a, {"M"}) /\ Recent(a) /\ Do(C2("Frobenius", a, 0, ""))
-GenMBin    == "MBin" \in En /\ \E op \in VOps, a \in Handles, b \in Handles :
+GenTranspose == On("Transpose") /\ \E a \in Handles : K(a, {"M", "ME", "V"}) /\ Recent(a) /\ Do(C2("Transpose", a, 0, ""))
+GenDiagonal == On("Diagonal") /\ \E a \in Handles, k \in {0, 1} : K(a, {"M"}) /\ Recent(a) /\ Do(CI("Diagonal", a, 0, 0, k))
+GenTrace   == On("Trace") /\ \E a \in Handles, k \in {0, 1} : K(a, {"M"}) /\ Recent(a) /\ Do(CI("Trace", a, 0, 0, k))
+GenFrob    == On("Frobenius") /\ \E a \in Handles : K(a, {"M"}) /\ Recent(a) /\ Do(C2("Frobenius", a, 0, ""))
+GenMBin    == On("MBin") /\ \E op \in VOps, a \in Handles, b \in Handles :
                  K(a, {"M", "ME"}) /\ K(b, {"M", "ME"}) /\ (Recent(a) \/ Recent(b)) /\ Do(C2("MBin", a, b, op))
-GenMBinLit == "MBinLit" \in En /\ \E op \in VOps, a \in Handles, l \in ScalarLits \cup ArrayLits, sw \in BOOLEAN :
+GenMBinLit == On("MBinLit") /\ \E op \in VOps, a \in Handles, l \in ScalarLits \cup ArrayLits, sw \in BOOLEAN :
                  K(a, {"M", "ME"}) /\ Recent(a) /\ Do(CL(IF sw THEN "MRBinLit" ELSE "MBinLit", a, op, l))
-GenMNeg    == "MNeg" \in En /\ \E a \in Handles : K(a, {"M", "ME"}) /\ Recent(a) /\ Do(C2("MNeg", a, 0, ""))
-GenMatVec  == "MatVec" \in En /\ \E a \in Handles, b \in Handles :
+GenMNeg    == On("MNeg") /\ \E a \in Handles : K(a, {"M", "ME"}) /\ Recent(a) /\ Do(C2("MNeg", a, 0, ""))
+GenMatVec  == On("MatVec") /\ \E a \in Handles, b \in Handles :
                  K(a, {"M"}) /\ K(b, {"V", "E", "MVP", "M"}) /\ (Recent(a) \/ Recent(b)) /\ Do(C2("MatVec", a, b, ""))
-GenQuadForm == "QuadForm" \in En /\ \E a \in Handles, l \in {x \in ArrayLits : Is2D(x)} :
+GenQuadForm == On("QuadForm") /\ \E a \in Handles, l \in {x \in ArrayLits : Is2D(x)} :
                  K(a, {"V", "E", "MVP"}) /\ Recent(a) /\ Do(CL("QuadForm", a, "", l))
-GenMCmp    == "MCmp" \in En /\ \E sn \in Senses, a \in Handles, b \in Handles :
+GenMCmp    == On("MCmp") /\ \E sn \in Senses, a \in Handles, b \in Handles :
                  K(a, {"M", "ME"}) /\ K(b, {"M", "ME"}) /\ (Recent(a) \/ Recent(b)) /\ Do(C2("MCmp", a, b, sn))
-GenMCmpLit == "MCmpLit" \in En /\ \E sn \in Senses, a \in Handles, l \in ScalarLits \cup ArrayLits, sw \in BOOLEAN :
+GenMCmpLit == On("MCmpLit") /\ \E sn \in Senses, a \in Handles, l \in ScalarLits \cup ArrayLits, sw \in BOOLEAN :
                  K(a, {"M", "ME"}) /\ Recent(a) /\ (sw => sn # "==")
                  /\ Do(CL(IF sw THEN "MRCmpLit" ELSE "MCmpLit", a, sn, l))
+
+GenProblem == On("Problem") /\ \E a \in Handles, b \in Handles \cup {0}, k \in Handles \cup {0}, sn \in {"minimize", "maximize"} :
+                 /\ K(a, {"S"}) /\ TVars(FH[a].den) # {} /\ (b # 0 => K(b, {"C", "CL"})) /\ (k # 0 => (b # 0 /\ k # b /\ K(k, {"C", "CL"})))
+                 /\ (Recent(a) \/ (b # 0 /\ Recent(b)))
+                 /\ (k # 0 => "Problem2" \in En)
+                 /\ (sn = "maximize" => "Maximize" \in En)
+                 /\ Do(Call("Problem", a, b, sn, NoLit, 0, 0, k, ""))
 
 Init == /\ calls = <<>>
         /\ heap = <<>>
@@ -127,7 +151,7 @@ Next == /\ NCalls < MaxCalls /\ Live
            \/ GenVBin \/ GenVBinLit \/ GenVNeg \/ GenSum \/ GenDot \/ GenLinComb \/ GenNorm
            \/ GenCmp \/ GenCmpLit
            \/ GenMGet \/ GenTranspose \/ GenDiagonal \/ GenTrace \/ GenFrob \/ GenMBin \/ GenMBinLit \/ GenMNeg
-           \/ GenMatVec \/ GenQuadForm \/ GenMCmp \/ GenMCmpLit
+           \/ GenMatVec \/ GenQuadForm \/ GenMCmp \/ GenMCmpLit \/ GenProblem
 
 (* ---- spec-internal invariants about the newest object ---- *)
 Top == FH[HL]
